@@ -231,7 +231,7 @@ def run_sharded(binary, lines, shards, timeout, env=None, cwd=None):
             for ln in chunks[i]:
                 try:
                     pp = subprocess.run(binary if isinstance(binary, list) else [binary], input=ln + '\n', stdout=subprocess.PIPE,
-                                        stderr=subprocess.PIPE, text=True, timeout=timeout, env=e, cwd=cwd)
+                                        stderr=subprocess.PIPE, text=True, timeout=min(timeout, 60), env=e, cwd=cwd)
                     lo = pp.stdout.splitlines()
                     ol.append(lo[0] if (pp.returncode == 0 and len(lo) == 1) else '3')   # 3 = abort
                 except subprocess.TimeoutExpired:
